@@ -585,7 +585,7 @@ def run(chk):
     chk.floor("K12-open", 1)
     chk.floor("K12-init", 8)
     chk.floor("K11-window", 2)
-    chk.floor("K11-final", 7)
+    chk.floor("K11-final", 4)   # commit, dominance, bytes_used and at least one writer before the commit (writers may share a helper)
     chk.floor("K2-commit", 6)
     chk.floor("K1-reject", 2)
     chk.floor("K11-last", 2)
